@@ -77,8 +77,16 @@ Record params := mkP {
   sb : Z;                          (* adj.send_bytes *)
   look : nat;                      (* adj.channel_request_lookahead *)
   progs : list (list Z * bool);    (* per accepted request: write sizes (a negative entry counts as 0), close_on_finish *)
-  residue_ok : bool                (* may a closed outbuf still report bytes? *)
+  residue_ok : bool;               (* may a closed outbuf still report bytes? *)
+  (* the shape of three statements; all true = the code as it is (the shape audit pins that);
+     false = the statement as it was before the fix, kept so that the defect stays a theorem *)
+  fx_notify_le : bool;             (* 6aba4bf  _flush_some_if_lockable notifies if total <= high_watermark (was <) *)
+  fx_drain : bool;                 (* daf1a85  handle_write also flushes if total > high_watermark *)
+  fx_recheck : bool                (* 7fa6a60  _flush_outbufs_below_high_watermark re-tests connected under the lock *)
 }.
+
+Definition fixed (p : params) : Prop :=
+  fx_notify_le p = true /\ fx_drain p = true /\ fx_recheck p = true.
 
 Inductive tid := TIo | TW | TT | TE.
 
@@ -100,7 +108,7 @@ Inductive iopc :=
 | IoSel (r w : bool)
 | IoRecv (ww : bool)
 | IoRcvAcq (ww : bool) | IoRcvWc (ww : bool) | IoRcvCwf (ww : bool) | IoRcvApp (ww : bool) | IoRcvRel (ww : bool)
-| IoHw1 | IoHw2 | IoTry
+| IoHw1 | IoHw2 | IoHw2b | IoTry
 | IoFlush | IoSubL (k : Z)
 | IoRelX | IoHwExn
 | IoNotify | IoRelL
@@ -112,6 +120,7 @@ Inductive iopc :=
 Inductive wpc :=
 | WIdle
 | WSvcConn
+| WSvcWc
 | WWrConn
 | WWrAcq
 | WFlush (c : fctx) (snt : bool)
@@ -273,7 +282,8 @@ Definition send_ok (k : Z) (s : state) : bool :=
 
 (* end of _flush_some on the I/O side *)
 Definition io_flush_done (p : params) (s : state) : state :=
-  set_io (if total s <? hw p then IoNotify else IoRelL) s.   (* _flush_some_if_lockable: "if total < high_watermark: notify" *)
+  (* _flush_some_if_lockable: "if total <= high_watermark: notify" *)
+  set_io (if (if fx_notify_le p then total s <=? hw p else total s <? hw p) then IoNotify else IoRelL) s.
 
 Definition enter_io_flush (p : params) (s : state) : state :=
   if pending s <=? 0 then io_flush_done p s else set_io IoFlush s.
@@ -327,7 +337,9 @@ Definition step_io (p : params) (s : state) (r : sendres) (res : Z) : option (st
     Some ((if ww then set_io IoHw1 (set_rlock None s) else to_top (set_rlock None s)), [Lb TIo KRRel])
   (* handle_write: channel.py:95-120 *)
   | IoHw1 => Some (set_io (if (nreq s =? 0)%nat then IoTry else IoHw2) s, [Lb TIo KRreq])
-  | IoHw2 => Some (set_io (if sb p <=? total s then IoTry else IoHw3) s, [Lb TIo KRtotal])
+  (* "elif total >= send_bytes or total > high_watermark": two unlocked reads *)
+  | IoHw2 => Some (set_io (if sb p <=? total s then IoTry else if fx_drain p then IoHw2b else IoHw3) s, [Lb TIo KRtotal])
+  | IoHw2b => Some (set_io (if hw p <? total s then IoTry else IoHw3) s, [Lb TIo KRtotal])
   | IoTry =>
     match olock s with
     | None => Some (enter_io_flush p (acq TIo 1 s), [Lb TIo KTry])
@@ -423,6 +435,10 @@ Definition enter_flush (p : params) (c : fctx) (s : state) : state :=
   else if sock_closed s then set_wk (WFlushExn c) s     (* self.socket is None: AttributeError, "except Exception" *)
   else set_wk (WFlush c false) s.
 
+(* _flush_outbufs_below_high_watermark inside its "with self.outbuf_lock": "if not self.connected: return" *)
+Definition enter_fb (p : params) (c : fctx) (s : state) : state :=
+  if fx_recheck p && negb (connected s) then fb_exit c s else enter_flush p c s.
+
 Definition step_w (p : params) (s : state) (r : sendres) : option (state * list label) :=
   match wk s with
   | WIdle =>
@@ -430,7 +446,9 @@ Definition step_w (p : params) (s : state) (r : sendres) : option (state * list 
       let pr := nth (cur s) (progs p) ([], true) in
       Some (set_wk WSvcConn (set_wclose (snd pr) (set_wq (map (Z.max 0) (fst pr)) (set_queued false s))), [Lb TW KStart])
     else None
-  | WSvcConn => Some ((if connected s then next_write s else set_wk WCloseAcq s), [Lb TW KRconn])
+  (* "if self.connected and not self.will_close:" (service(), since 64d926d) *)
+  | WSvcConn => Some (set_wk (if connected s then WSvcWc else WCloseAcq) s, [Lb TW KRconn])
+  | WSvcWc => Some ((if will_close s then set_wk WCloseAcq s else next_write s), [Lb TW KRwc])
   | WWrConn =>
     match wq s with
     | [] => None
@@ -443,7 +461,7 @@ Definition step_w (p : params) (s : state) (r : sendres) : option (state * list 
   | WWrAcq =>
     match olock s with
     | None =>
-      Some ((if hw p <? total s then enter_flush p FW (acq TW 2 s) else goto_append (acq TW 1 s)),
+      Some ((if hw p <? total s then enter_fb p FW (acq TW 2 s) else goto_append (acq TW 1 s)),
             [Lb TW KAcq])
     | Some _ => None
     end
@@ -495,7 +513,7 @@ Definition step_w (p : params) (s : state) (r : sendres) : option (state * list 
   | WFbTest => Some ((if hw p <? total s then set_wk WFbAcq s else hand_over s), [Lb TW KRtotal])
   | WFbAcq =>
     match olock s with
-    | None => Some (enter_flush p FS (acq TW 1 s), [Lb TW KAcq])
+    | None => Some (enter_fb p FS (acq TW 1 s), [Lb TW KAcq])
     | Some _ => None
     end
   | WFbRel => Some (hand_over (rel s), [Lb TW KRel])
@@ -579,13 +597,15 @@ Definition io_blocked (s : state) : bool :=
   end.
 
 (* the I/O thread is about to run a poll turn that changes nothing: the socket
-   is writable, handle_write picks no flush because a task is running and
-   total < send_bytes, no flag is set; the turn ends in the same state *)
+   is writable, handle_write picks no flush because a task is running,
+   total < send_bytes and total <= high_watermark, no flag is set; the turn ends
+   in the same state *)
 Definition io_spinning (p : params) (s : state) : bool :=
   match io s with
   | IoSel false true =>
     negb (pulled s) && reading s && negb (gone s) && in_map s && (0 <? nreq s)%nat
-    && (0 <? total s) && (total s <? sb p) && negb (will_close s) && negb (cwf s)
+    && (0 <? total s) && (total s <? sb p) && (negb (fx_drain p) || (total s <=? hw p))
+    && negb (will_close s) && negb (cwf s)
   | _ => false
   end.
 
